@@ -190,7 +190,7 @@ type c12Payload struct {
 	Choices  []int       `json:"choices"`
 	Want     string      `json:"single_worker_outcome"`
 	Got      string      `json:"outcome"`
-	Loop     bool        `json:"loop_points_on"` // whether loop iterations were scheduling points in the recorded execution
+	Loop     bool        `json:"loop_points_on"`         // whether loop iterations were scheduling points in the recorded execution
 	Free     bool        `json:"free_running,omitempty"` // family builtin-calls: real threads, no choice vector
 }
 
